@@ -218,11 +218,21 @@ def h07b(m1: int, m2: int, t1: int, t2: int) -> bool:
         elif op == "symmetric_difference":
             R = A.symmetric_difference(B)
         else:
-            R = dns.rdataset.ImmutableRdataset(A).union(B)
+            # the functional operations of the immutable flavour (what versioned-zone readers hand out)
+            IA = dns.rdataset.ImmutableRdataset(A)
+            if op == "imm_xor":
+                R = IA ^ B
+            elif op == "imm_and":
+                R = IA & B
+            elif op == "imm_sub":
+                R = IA - B
+            else:
+                R = getattr(IA, op[4:])(B)
             if not isinstance(R, dns.rdataset.ImmutableRdataset):
                 return False
+            op = {"imm_xor": "symmetric_difference", "imm_and": "intersection", "imm_sub": "difference"}.get(op, op if op == "imm_union" else op[4:])
     except dns.rdataset.DifferingCovers:
-        return differing and op in ("union_update", "update", "union", "or", "imm_union", "symmetric_difference")
+        return differing and op in ("union_update", "update", "union", "or", "imm_union", "symmetric_difference", "imm_symmetric_difference", "imm_xor")
     got = classes_of(kind, R)
     if got is None:
         return False
@@ -267,7 +277,8 @@ def h07b_pre(m1, m2, t1, t2):
     return 0 <= m1 < 2**n and 0 <= m2 < 2**n and 0 <= t1 <= 2**31 - 1 and 0 <= t2 <= 2**31 - 1
 
 
-H07B_OPS = ["union_update", "update", "intersection_update", "union", "or", "intersection", "difference", "symmetric_difference", "imm_union"]
+H07B_OPS = ["union_update", "update", "intersection_update", "union", "or", "intersection", "difference", "symmetric_difference", "imm_union",
+            "imm_intersection", "imm_difference", "imm_symmetric_difference", "imm_xor", "imm_and", "imm_sub"]
 
 
 def h07b_shards(tier):
